@@ -35,7 +35,34 @@ def short_callee(t):
     return "::".join(c.split("::")[-2:])
 
 
-def deep(f, o, d=6):
+INLINE_STOP = re.compile(r"SymbolManager::<T>::(get_parent|get_children|get_children_mut|traverse|get|get_mut|try_get_by_name|get_by_name|declare)$|OverlapChecker::|FileServer|file_navigation::|BigInt::|DefList::|ItemRef::|SymbolContext::new_global$|Report::|Walker::")
+
+
+def _inline_call(f, t, d):
+    """a call of a small loop-free local helper is replaced by the helper's own result expression (one function deep), so
+    that factoring an expression out into a helper does not change what the rules see"""
+    if not t.get("resolved_local") or t.get("resolved_kind") != "item":
+        return None
+    r = t.get("resolved") or ""
+    if INLINE_STOP.search(r) or r == f.id:
+        return None
+    g = f.prog.fn(r)
+    if g is None or g.kind not in ("Fn", "AssocFn") or len(g.blocks) > 16:
+        return None
+    if any(natural_loop(g, h) for h in g.reachable()):
+        return None
+    body = deep(g, g.origin_local(0), d - 1, inline=False)
+    if "var:" in body or body in ("_", "unknown", "multi") or "upvar:" in body:
+        return None
+    args = [deep(f, a, d - 1) for a in t["args"]]
+
+    def sub(m):
+        i = int(m.group(1))
+        return args[i - 1] if 1 <= i <= len(args) else m.group(0)
+    return re.sub(r"\bP(\d+)\b", sub, body)
+
+
+def deep(f, o, d=6, inline=True):
     """nested provenance expression of an operand/origin: parameters by position, calls with their arguments, field paths;
     references, dereferences, clones and `?` are looked through"""
     if isinstance(o, dict):
@@ -51,8 +78,12 @@ def deep(f, o, d=6):
         t = o[1]
         c = t.get("callee") or ""
         if (c in DEEP_TRANSPARENT or re.search(r"(Option|Result)::<.*>::(unwrap|expect|as_ref|as_mut|clone)$", c)) and t["args"]:
-            return deep(f, t["args"][0], d)
-        return "%s(%s)" % (short_callee(t), ", ".join(deep(f, a, d - 1) for a in t["args"]))
+            return deep(f, t["args"][0], d, inline)
+        if inline:
+            x = _inline_call(f, t, d)
+            if x is not None:
+                return x
+        return "%s(%s)" % (short_callee(t), ", ".join(deep(f, a, d - 1, inline) for a in t["args"]))
     if k == "const":
         if o[1].get("static"):
             return "static:" + o[1]["static"]
@@ -70,6 +101,8 @@ def deep(f, o, d=6):
                         s = "upvar:" + up[pr["f"]]
                         projs = projs[i + 1:]
                     break
+        if o[1][0] == "binop" and o[1][1]["op"].endswith("WithOverflow") and projs and isinstance(projs[0], dict) and projs[0].get("name") == "0":
+            projs = projs[1:]
         for pr in projs:
             if pr == "deref":
                 continue
@@ -574,3 +607,101 @@ def parse_rules(run):
                 why = "the counter is not what the node records as its level"
         run.check(ok, R, R + "|parse|" + name, f.loc(), "%s counts one level per leading dot and records the count" % name.rsplit("::", 1)[-1],
                   "%s: %s" % (name, why))
+
+
+def prepass_rules(run):
+    """the constants / #if pre-pass terminates on `no progress`; that is only sound when the per-round count is the number of
+    constants that have a value in this round: every constant node is evaluated or answered `Resolved` in every round"""
+    prog = run.prog
+    f = run.anchor(R, "asm::resolver::constant::resolve_constants_simple")
+    g = run.anchor(R, "asm::resolver::constant::resolve_constant_simple")
+    if f is not None:
+        cs = _calls(f, "constant::resolve_constant_simple")
+        ok = len(cs) == 1
+        why = "%d call(s) of resolve_constant_simple" % len(cs)
+        if ok:
+            cb, ct = cs[0]
+            arm = None
+            for b, arms, oth, pl, vs in T.enum_switch_arms(f, "AstSymbolKind"):
+                if "Constant" in arms:
+                    arm = (b, arms["Constant"])
+            if arm is None:
+                for b in sorted(f.reachable()):
+                    tt = f.blocks[b]["term"]
+                    if tt["k"] == "switch" and op_local(tt["discr"]) is not None:
+                        o = f.origin_local(op_local(tt["discr"]))
+                        if o[0] == "discr" and "AstSymbolKind" in (o[2].get("adt") or ""):
+                            vs = o[2].get("variants") or {}
+                            for v, tg in tt["targets"]:
+                                if vs.get(v) == "Constant":
+                                    arm = (b, tg)
+                            if arm is None and any(vs.get(v) == "Label" for v, tg in tt["targets"]):
+                                arm = (b, tt["otherwise"])
+            ok = arm is not None
+            why = "no match on the symbol kind"
+            if ok:
+                sb, entry = arm
+                loop = set()
+                for h in sorted(f.reachable()):
+                    l_ = natural_loop(f, h)
+                    if cb in l_:
+                        loop |= l_
+                        hdr = h
+                incs = []
+                for bi, si, st in f.stmts():
+                    if st["k"] == "assign" and st["rv"]["k"] == "binop" and st["rv"]["op"].startswith("Add") and const_int(st["rv"]["r"]) == 1:
+                        ll = op_local(st["rv"]["l"])
+                        if ll is not None and f.local_name(f.copy_root(ll)) == "resolved_count":
+                            incs.append(bi)
+                # from the Constant arm, the next round of the loop cannot be reached without the call (or without
+                # counting the constant)
+                seen = set()
+                work = [entry]
+                bad = False
+                while work:
+                    x = work.pop()
+                    if x in seen or x == cb or x in incs:
+                        continue
+                    seen.add(x)
+                    for s_ in f.succs(x):
+                        if f.blocks[s_]["cleanup"]:
+                            continue
+                        if s_ not in loop:
+                            continue
+                        if f.dominates(s_, sb) and s_ != entry:
+                            bad = True
+                        else:
+                            work.append(s_)
+                ok = not bad
+                why = "a constant node can be skipped without being evaluated or counted"
+            if ok:
+                # after the call, the counter is incremented by one exactly on the Resolved answer
+                after = [b for b in incs if f.dominates(cb, b)]
+                ok = len(after) == 1
+                why = "the count is not incremented once per resolved constant"
+                if ok:
+                    okr = False
+                    for b, arms, oth, pl, vs in T.enum_switch_arms(f, "ResolutionState"):
+                        if "Resolved" in arms and f.edge_dominates(b, arms["Resolved"], after[0]):
+                            okr = True
+                        elif "Unresolved" in arms and oth is not None and f.edge_dominates(b, oth, after[0]):
+                            okr = True
+                    ok = okr
+                    why = "the increment is not on the `Resolved` answer"
+        run.check(ok, R, R + "|prepass|count-all", f.loc(), "every constant node is evaluated (or answered from its frozen value) and counted once per round",
+                  "resolve_constants_simple: %s: the round count is no longer the number of constants with a value, so the `no progress` exit of the pre-pass can fire while constants are still being resolved (constants used before their declaration stay unknown)" % why)
+    if g is not None:
+        # the early answer for a frozen constant is `Resolved`
+        okf = True
+        for bi, si, st in g.stmts():
+            if st["k"] == "assign" and st["rv"]["k"] == "use" and deep(g, st["rv"]["op"]).endswith(".resolved"):
+                tt = g.blocks[bi]["term"]
+                if tt["k"] == "switch" and op_local(tt["discr"]) == st["place"]["l"]:
+                    okf = False
+                    reg = T.dominated_region(g, tt["otherwise"], bi)
+                    for x in reg:
+                        for st2 in g.blocks[x]["stmts"]:
+                            if st2["k"] == "assign" and st2["place"]["l"] == 0 and st2["rv"]["k"] == "agg" and st2["rv"].get("variant") == "Ok" and "Resolved{}" == deep(g, st2["rv"]["ops"][0]):
+                                okf = True
+        run.check(okf, R, R + "|prepass|frozen-counts", g.loc(), "a constant frozen in an earlier round answers `Resolved` (and is counted)",
+                  "resolve_constant_simple no longer answers `Resolved` for an already resolved constant: the pre-pass count is not monotone")
